@@ -40,7 +40,28 @@ Events(h, a) == [n \in DOMAIN h |-> [e |-> h[n], h |-> a[n].h]]
 \* transition cover: one witness per explored transition, with the model's own result of the last call
 ExportTrans == Len(hist') > NPre => PrintT(ToJson([tag |-> "HIST", ev |-> Events(hist', aux'), res |-> sres', objs |-> [n \in DOMAIN objs' |-> Proj(objs'[n])]]))
 ExportHist == Len(hist) = ExportLen => PrintT(ToJson([tag |-> "HIST", ev |-> Events(hist, aux), res |-> sres, objs |-> [n \in DOMAIN objs |-> Proj(objs[n])]]))
-\* model-level verdict (expected to be violated by the transcription of today's pickling: reported, not fatal)
+\* ---- what TLC checks on the transcription itself (transitions => properties, exhaustively within the bound) ----
+\* the last call, read back from the history
+LastE == hist'[Len(hist')]
+\* C12_Keep, frame: whatever the call, every quantity that existed before is still there, and only the target of an
+\* in-place conversion may differ
+FrameStep == /\ Len(objs') >= Len(objs)
+             /\ \A n \in DOMAIN objs : objs'[n] = objs[n] \/ (LastE.op \in {"convin", "convinu"} /\ LastE.i = n)
+\* C12_Keep, denotation: a conversion (copying or in place, to a string or to a Unit object) changes how a quantity is
+\* written, never what it denotes - also for quantities labelled before an edit
+DenoteStep ==
+  /\ (LastE.op \in {"to", "tou"} /\ sres'.k = "obj") => SI(objs'[Len(objs')]) = SI(objs[LastE.i])
+  /\ (LastE.op \in {"convin", "convinu"} /\ sres'.k = "obj") => SI(objs'[LastE.i]) = SI(objs[LastE.i])
+  /\ (LastE.op = "plus" /\ sres'.k = "obj") => SI(objs'[Len(objs')]) = RAdd(SI(objs[LastE.i]), SI(objs[LastE.j]))
+\* C12_Fresh at the moment of labelling: a new quantity, and the target of a string conversion, carry the scale the caller's
+\* view of the registry gives the string NOW - unless a derived prefixed row that outlived an edit of its base symbol is
+\* involved (the recorded finding `layer: lutrow`, which the transcription reproduces)
+DerivedStale(p) == \E i \in DOMAIN Atoms(p) : LET a == Atoms(p)[i] IN IsPrefixed(a) /\ user[a].scale = 0 /\ lut[a].scale # 0
+FreshStep == (LastE.op \in {"make", "to", "convin"} /\ sres'.k = "obj" /\ ~DerivedStale(LastE.str)) =>
+               LET w == RefResolve(user', LastE.str) IN w.k = "unit" /\ sres'.o.s = w.s /\ sres'.o.d = w.d
+ModelStep == Len(hist') > Len(hist) => (FrameStep /\ DenoteStep /\ FreshStep)
+ModelProps == [][ModelStep]_svars
+\* model-level verdict on pickling (violated by the transcription of today's __reduce__/__setstate__: reported, not fatal)
 ModelKeep == \A i \in DOMAIN objs : PickleKeeps(i)
-ReportKeep == ~ModelKeep => PrintT(ToJson([tag |-> "MODEL-PICKLE", stale |-> {i \in DOMAIN objs : ~PickleKeeps(i)} # {}]))
+ReportKeep == ~ModelKeep => PrintT(ToJson([tag |-> "MODEL-PICKLE", n |-> Cardinality({i \in DOMAIN objs : ~PickleKeeps(i)})]))
 =============================================================================
